@@ -89,7 +89,7 @@ def gen_system(rng, kind):
             d = np.array([math.sin(rng.uniform(0.3, 1.2)), rng.uniform(-0.3, 0.3), -math.cos(rng.uniform(0.3, 1.2))])
             d = d / np.linalg.norm(d) * rng.choice([0.8, 1.0])
             pm = PointMass(rng.choice([1.0, 0.5]), q0=r_prev + d, name=f"pm{i}")
-            system.add(pm, FixedDistance(prev, pm, name=f"link{i}"), Force(pm.mass * g, pm, name=f"weight{i}"))
+            system.add(pm, FixedDistance(prev, pm), Force(pm.mass * g, pm, name=f"weight{i}"))
             prev, r_prev = pm, r_prev + d
         system.add(Spring(TwoPointInteraction(system.origin, prev, B_r_CP1=np.array([0.8, 0.0, -0.5])), k=10.0, l_ref=0.7, compliance_form=False, name="spring"))
         desc.update(masses=n)
@@ -110,7 +110,9 @@ def gen_system(rng, kind):
 
 
 def energy(system, t, q, u):
-    return float(system.E_kin(t, q, u) + system.E_pot(t, q))
+    # kinetic energy from the mass matrix (RigidBody reports no E_kin of its own)
+    q = np.asarray(q, dtype=float); u = np.asarray(u, dtype=float)
+    return float(0.5 * u @ (system.M(t, q) @ u) + system.E_pot(t, q))
 
 
 def rattle(system, t1, dt):
